@@ -13,11 +13,17 @@
 (* stage s).  Row value 0 is the array's fill value.                        *)
 (*                                                                          *)
 (* Configurations (module SamplerConsts, generated): a sequence SCfgs of    *)
-(* records [nchain, nproc (0 = sequential, >0 = workers), stages, intr].    *)
+(* records [nchain, nproc (0 = sequential, >0 = workers), stages, intr,     *)
+(* initfail].  initfail = [stage, chain]: the initialisation of an adapter   *)
+(* fails (AdaptationError) for that chain in that stage: documented as a     *)
+(* non-fatal error -- the chain is dropped, the other chains carry on.       *)
 (***************************************************************************)
 EXTENDS Integers, Sequences, FiniteSets, TLC, Json, SamplerConsts
 
 Adapters == {"fast", "slow"}
+MinOf(S) == CHOOSE x \in S : \A y \in S : x <= y
+MaxOf(S) == CHOOSE x \in S : \A y \in S : x >= y
+SortedSeq(S) == [i \in 1..Cardinality(S) |-> CHOOSE x \in S : Cardinality({y \in S : y < x}) = i - 1]
 
 \* ---- static helpers over a configuration -----------------------------------
 NStages(cf) == Len(cf.stages)
@@ -65,12 +71,13 @@ VARIABLES
   wk,        \* wk[w] = [st |-> "idle"|"busy"|"exited", c |-> chain]
   outs,      \* chains whose outputs were returned by some worker
   parent,    \* "loop" | "broke" | "done"
+  dropped,   \* chains dropped because an adapter could not be initialised
   interrupted, \* TRUE once the (single) interrupt has fired
   stagesRun, \* sequence of stage indices that were started (history)
   finals     \* returned final states (sequence of <<c, k, r>>) once phase = "returned"
 
 vars == <<ci, si, phase, offset, cs, have, rngp, param, tr, sr, cur, it, wst, ad, cstat, wparam,
-          chainq, iterq, wk, outs, parent, interrupted, stagesRun, finals>>
+          chainq, iterq, wk, outs, parent, dropped, interrupted, stagesRun, finals>>
 
 CF == SCfgs[ci]
 ST == Stage(CF, si)
@@ -97,7 +104,7 @@ Init ==
   /\ wk = [w \in 1..MaxW |-> [st |-> "exited", c |-> 0]]
   /\ outs = {}
   /\ parent = "done"
-  /\ interrupted = FALSE
+  /\ interrupted = FALSE /\ dropped = {}
   /\ stagesRun = <<>>
   /\ finals = <<>>
 
@@ -107,21 +114,21 @@ StartStage ==
   /\ phase = "start"
   /\ si <= NStages(CF)
   /\ stagesRun' = Append(stagesRun, si)
-  /\ IF ST.n = 0
+  /\ IF ST.n = 0 \/ have = {}
      THEN /\ phase' = "advance"
           /\ UNCHANGED <<cur, it, wst, ad, cstat, wparam, chainq, iterq, wk, outs, parent>>
      ELSE /\ phase' = "run"
           /\ it' = [c \in 1..3 |-> 0]
           /\ wst' = cs
           /\ ad' = [c \in 1..3 |-> [a \in Adapters |-> -1]]
-          /\ cstat' = [c \in 1..3 |-> IF c \in Chains(CF) THEN "todo" ELSE "done"]
+          /\ cstat' = [c \in 1..3 |-> IF c \in have THEN "todo" ELSE "done"]
           /\ IF Seq_(CF)
-             THEN /\ cur' = 1
+             THEN /\ cur' = MinOf(have)
                   /\ wparam' = [wparam EXCEPT ![0] = param]
                   /\ UNCHANGED <<chainq, iterq, wk, outs, parent>>
              ELSE \* chain arguments (incl. pickled generators) queued; common kwargs pickled per worker
                   /\ cur' = 0
-                  /\ chainq' = [i \in 1..CF.nchain |-> i]
+                  /\ chainq' = SortedSeq(have)
                   /\ iterq' = [fin |-> 0, intr |-> FALSE]
                   /\ wk' = [w \in 1..MaxW |-> IF w \in Workers(CF)
                                                THEN [st |-> "idle", c |-> 0]
@@ -129,7 +136,7 @@ StartStage ==
                   /\ outs' = {}
                   /\ wparam' = [p \in 0..MaxW |-> param]
                   /\ parent' = "loop"
-  /\ UNCHANGED <<ci, si, offset, cs, have, rngp, param, tr, sr, interrupted, finals>>
+  /\ UNCHANGED <<ci, si, offset, cs, have, rngp, param, tr, sr, dropped, interrupted, finals>>
 
 \* does the interrupt fire in chain c's iteration i (1-based, within stage si) at this site?
 \* intr.chain = 0 is a process-group interrupt (Ctrl-C): it fires in EVERY chain that reaches the point
@@ -141,11 +148,19 @@ Fires(c, i, site) ==
 ActiveAd == ST.adapters     \* subset of Adapters active in the current stage
 
 \* adapter.initialize for every active adapter (start of _sample_chain), in process p
+InitFails(c) == CF.initfail.stage = si /\ CF.initfail.chain = c /\ ActiveAd # {}
+
 InitChain(c, p) ==
   /\ cstat[c] = "todo"
-  /\ cstat' = [cstat EXCEPT ![c] = "running"]
-  /\ ad' = [ad EXCEPT ![c] = [a \in Adapters |-> IF a \in ActiveAd THEN 0 ELSE -1]]
-  /\ wparam' = [wparam EXCEPT ![p] = [a \in Adapters |-> IF a \in ActiveAd THEN InitP(c) ELSE @[a]]]
+  /\ IF InitFails(c)
+     THEN \* AdaptationError: logged, the chain is dropped, nothing else changes
+          /\ cstat' = [cstat EXCEPT ![c] = "dropped"]
+          /\ dropped' = dropped \cup {c}
+          /\ UNCHANGED <<ad, wparam>>
+     ELSE /\ cstat' = [cstat EXCEPT ![c] = "running"]
+          /\ ad' = [ad EXCEPT ![c] = [a \in Adapters |-> IF a \in ActiveAd THEN 0 ELSE -1]]
+          /\ wparam' = [wparam EXCEPT ![p] = [a \in Adapters |-> IF a \in ActiveAd THEN InitP(c) ELSE @[a]]]
+          /\ UNCHANGED dropped
 
 Row(c) == it[c] + 1 + offset
 
@@ -188,23 +203,24 @@ SeqIter ==
   /\ phase = "run" /\ Seq_(CF) /\ cur \in Chains(CF)
   /\ Iterate(cur, 0)
   /\ UNCHANGED <<ci, si, phase, offset, cs, have, rngp, param, cur, chainq, iterq, wk, outs, parent,
-                 stagesRun, finals>>
+                 dropped, stagesRun, finals>>
 
 \* chain finished (or interrupted): its state goes to chain_outputs; the generator object is
 \* shared by reference, so the parent's stream position follows
 SeqNext ==
   /\ phase = "run" /\ Seq_(CF) /\ cur \in Chains(CF)
-  /\ cstat[cur] \in {"done", "interrupted"}
+  /\ cstat[cur] \in {"done", "interrupted", "dropped"}
   /\ cs' = [cs EXCEPT ![cur] = wst[cur]]
   /\ rngp' = [rngp EXCEPT ![cur] = wst[cur][2]]
-  /\ IF cstat[cur] = "interrupted" \/ cur = CF.nchain
+  /\ IF cstat[cur] = "interrupted" \/ cur = MaxOf(have)
      THEN /\ phase' = "collect"
-          /\ have' = 1..cur             \* only chains started so far are returned
+          \* only chains started so far are returned; dropped chains are not
+          /\ have' = {c \in have : c <= cur} \ dropped
           /\ cur' = 0
-     ELSE /\ cur' = cur + 1
+     ELSE /\ cur' = MinOf({c \in have : c > cur})
           /\ UNCHANGED <<phase, have>>
   /\ UNCHANGED <<ci, si, offset, param, tr, sr, it, wst, ad, cstat, wparam, chainq, iterq, wk, outs, parent,
-                 interrupted, stagesRun, finals>>
+                 dropped, interrupted, stagesRun, finals>>
 
 \* ---- worker pool --------------------------------------------------------------
 \* idle workers are indistinguishable: only the lowest-numbered idle worker moves (symmetry breaking)
@@ -215,11 +231,14 @@ WorkerTake(w) ==
   /\ LowestIdle(w)
   /\ IF chainq = <<>>
      THEN /\ wk' = [wk EXCEPT ![w].st = "exited"]
-          /\ UNCHANGED <<chainq, cstat, ad, wparam>>
-     ELSE /\ wk' = [wk EXCEPT ![w].st = "busy", ![w].c = Head(chainq)]
-          /\ chainq' = Tail(chainq)
+          /\ UNCHANGED <<chainq, cstat, ad, wparam, dropped, iterq>>
+     ELSE /\ chainq' = Tail(chainq)
           /\ InitChain(Head(chainq), w)
-  /\ UNCHANGED <<ci, si, phase, offset, cs, have, rngp, param, tr, sr, cur, it, wst, iterq, outs, parent,
+          /\ IF InitFails(Head(chainq))
+             THEN \* None is put on the iteration queue (counts as a completion); the worker carries on
+                  /\ wk' = wk /\ iterq' = [iterq EXCEPT !.fin = @ + 1]
+             ELSE /\ wk' = [wk EXCEPT ![w].st = "busy", ![w].c = Head(chainq)] /\ iterq' = iterq
+  /\ UNCHANGED <<ci, si, phase, offset, cs, have, rngp, param, tr, sr, cur, it, wst, outs, parent,
                  interrupted, stagesRun, finals>>
 
 WorkerIter(w) ==
@@ -228,7 +247,7 @@ WorkerIter(w) ==
   /\ Iterate(wk[w].c, w)
   \* the message of the last iteration is the chain's completion message
   /\ iterq' = IF cstat'[wk[w].c] = "done" THEN [iterq EXCEPT !.fin = @ + 1] ELSE iterq
-  /\ UNCHANGED <<ci, si, phase, offset, cs, have, rngp, param, cur, chainq, wk, outs, parent, stagesRun, finals>>
+  /\ UNCHANGED <<ci, si, phase, offset, cs, have, rngp, param, cur, chainq, wk, outs, parent, dropped, stagesRun, finals>>
 
 WorkerDone(w) ==
   /\ phase = "run" /\ ~Seq_(CF) /\ w \in Workers(CF)
@@ -241,7 +260,7 @@ WorkerDone(w) ==
      ELSE /\ wk' = [wk EXCEPT ![w].st = "idle", ![w].c = 0]
           /\ UNCHANGED iterq
   /\ UNCHANGED <<ci, si, phase, offset, cs, have, rngp, param, tr, sr, cur, it, wst, ad, cstat, wparam,
-                 chainq, parent, interrupted, stagesRun, finals>>
+                 chainq, parent, dropped, interrupted, stagesRun, finals>>
 
 \* The parent's progress loop leaves when it has received an interrupt message, or when it has
 \* counted nchain completion messages.  If neither can happen it blocks on the queue for ever
@@ -249,9 +268,9 @@ WorkerDone(w) ==
 ParentExitLoop ==
   /\ phase = "run" /\ ~Seq_(CF) /\ parent = "loop"
   /\ \/ iterq.intr /\ parent' = "broke"
-     \/ ~iterq.intr /\ iterq.fin = CF.nchain /\ parent' = "done"
+     \/ ~iterq.intr /\ iterq.fin = Cardinality(have) /\ parent' = "done"
   /\ UNCHANGED <<ci, si, phase, offset, cs, have, rngp, param, tr, sr, cur, it, wst, ad, cstat, wparam,
-                 chainq, iterq, wk, outs, interrupted, stagesRun, finals>>
+                 chainq, iterq, wk, outs, dropped, interrupted, stagesRun, finals>>
 
 \* results.get(): waits for every worker; outputs sorted by chain index.  The workers' advanced
 \* generator states are carried back to the parent's per-chain generators.
@@ -263,7 +282,7 @@ ParentCollect ==
   /\ rngp' = [c \in 1..3 |-> IF c \in outs THEN wst[c][2] ELSE rngp[c]]
   /\ phase' = "collect"
   /\ UNCHANGED <<ci, si, offset, param, tr, sr, cur, it, wst, ad, cstat, wparam, chainq, iterq, wk, outs, parent,
-                 interrupted, stagesRun, finals>>
+                 dropped, interrupted, stagesRun, finals>>
 
 \* ---- after the chains of a stage ------------------------------------------------
 \* adapters are finalised iff the stage had active adapters (an interrupted stage may be
@@ -271,10 +290,10 @@ ParentCollect ==
 Finalize ==
   /\ phase = "collect"
   /\ phase' = "advance"
-  /\ \/ param' = [a \in Adapters |-> IF a \in ActiveAd THEN FinP(si) ELSE param[a]]
+  /\ \/ param' = [a \in Adapters |-> IF a \in ActiveAd /\ have # {} THEN FinP(si) ELSE param[a]]
      \/ interrupted /\ param' = param
   /\ UNCHANGED <<ci, si, offset, cs, have, rngp, tr, sr, cur, it, wst, ad, cstat, wparam, chainq, iterq, wk, outs,
-                 parent, interrupted, stagesRun, finals>>
+                 parent, dropped, interrupted, stagesRun, finals>>
 
 Advance ==
   /\ phase = "advance"
@@ -287,7 +306,7 @@ Advance ==
           /\ si' = si
      ELSE /\ phase' = "start" /\ si' = si + 1 /\ UNCHANGED finals
   /\ UNCHANGED <<ci, cs, have, rngp, param, tr, sr, cur, it, wst, ad, cstat, wparam, chainq, iterq, wk, outs,
-                 parent, interrupted, stagesRun>>
+                 parent, dropped, interrupted, stagesRun>>
 
 \* degenerate run without any stage
 ReturnEmpty ==
@@ -295,7 +314,7 @@ ReturnEmpty ==
   /\ phase' = "returned"
   /\ finals' = [i \in 1..CF.nchain |-> <<i, 0, 0>>]
   /\ UNCHANGED <<ci, si, offset, cs, have, rngp, param, tr, sr, cur, it, wst, ad, cstat, wparam, chainq,
-                 iterq, wk, outs, parent, interrupted, stagesRun>>
+                 iterq, wk, outs, parent, dropped, interrupted, stagesRun>>
 
 Next ==
   \/ StartStage \/ SeqInit \/ SeqIter \/ SeqNext
@@ -337,16 +356,21 @@ RowStage(cf, s, r) ==
        ELSE RowStage(cf, s + 1, r)
 
 \* C13: rows hold, row by row, the state after each recorded iteration; no fill value survives
+\* (a chain dropped in stage d has complete rows for the stages before d and fill values from d on,
+\*  and is not among the returned final states)
 RowsExact ==
   (Returned /\ NoIntr(CF)) =>
-    \A c \in Chains(CF) :
-      /\ \A r \in 1..NRows(CF) :
-           LET s == RowStage(CF, 1, r) k == RowIter(CF, 1, r) IN
-           /\ (Stage(CF, s).stats => sr[c][r][1] = k)
-           /\ (Stage(CF, s).traced => tr[c][r][1] = k)
-           /\ (~Stage(CF, s).traced => tr[c][r][1] = 0)
-      /\ Len(finals) = CF.nchain
-      /\ finals[c] = <<c, SumAll(CF, NStages(CF)), SumAll(CF, NStages(CF))>>
+    /\ \A c \in Chains(CF) : \A r \in 1..NRows(CF) :
+         LET s == RowStage(CF, 1, r) k == RowIter(CF, 1, r)
+             gone == c \in dropped /\ s >= CF.initfail.stage IN
+         /\ (Stage(CF, s).stats /\ ~gone => sr[c][r][1] = k)
+         /\ (Stage(CF, s).traced /\ ~gone => tr[c][r][1] = k)
+         /\ (~Stage(CF, s).traced \/ gone => tr[c][r][1] = 0)
+         /\ (gone => sr[c][r][1] = 0)
+    /\ Len(finals) = CF.nchain - Cardinality(dropped)
+    /\ \A i \in 1..Len(finals) :
+         /\ finals[i][1] \notin dropped
+         /\ finals[i][2] = SumAll(CF, NStages(CF)) /\ finals[i][3] = SumAll(CF, NStages(CF))
 
 \* C14: a stream is never replayed and every row is a function of (chain, iteration) only:
 \* the stream position recorded with iteration k is k, in every stage and mode.
@@ -382,7 +406,7 @@ LastEffective(cf, a) ==
 MainFrozen ==
   (Returned /\ NoIntr(CF) /\ NStages(CF) > 0 /\ Stage(CF, NStages(CF)).adapters = {}
      /\ Stage(CF, NStages(CF)).stats) =>
-    \A c \in Chains(CF) : \A r \in 1..NRows(CF) :
+    \A c \in Chains(CF) \ dropped : \A r \in 1..NRows(CF) :
        RowStage(CF, 1, r) = NStages(CF) =>
           /\ sr[c][r][3] = LastEffective(CF, "fast")
           /\ sr[c][r][4] = LastEffective(CF, "slow")
